@@ -1,6 +1,6 @@
 #!/bin/bash
 # rf.sh <Cxx-rN> <prop...> : apply refactoring, run given quick checks, undo
-d=/verif/seeded/refactor/$1; shift
+d=/verif/seeded/${RFD:-refactor}/$1; shift
 git -C /repo apply $d/patch.diff || exit 3
 for p in "$@"; do (cd /verif && KVERIF_NOWRITE=1 python3-vt -m kverif check $p --tier quick 2>&1 | grep -E "VIOLATION|UNDECIDED|ANALYSIS|violation|undecided|Traceback|Error" | cut -c1-400 | head -${RFN:-12}); done
 git -C /repo checkout -- .
